@@ -111,5 +111,46 @@ fn is_go_keyword(s: &str) -> bool {
             | "import"
             | "return"
             | "var"
+    ) || is_go_predeclared(s)
+}
+
+/// Identifiers of Go's universe block (and the `fmt` package the output imports) that a goml
+/// program can choose as a name. The emitted code and the runtime use them unqualified — `len`,
+/// `append`, `panic`, `nil`, `any` — so a user definition of that name at package level would
+/// capture them. (goml's own type names and `true` / `false` are keywords of goml itself.)
+fn is_go_predeclared(s: &str) -> bool {
+    matches!(
+        s,
+        "any"
+            | "byte"
+            | "comparable"
+            | "complex64"
+            | "complex128"
+            | "error"
+            | "int"
+            | "rune"
+            | "uint"
+            | "uintptr"
+            | "iota"
+            | "nil"
+            | "append"
+            | "cap"
+            | "clear"
+            | "close"
+            | "complex"
+            | "copy"
+            | "delete"
+            | "imag"
+            | "len"
+            | "make"
+            | "max"
+            | "min"
+            | "new"
+            | "panic"
+            | "print"
+            | "println"
+            | "real"
+            | "recover"
+            | "fmt"
     )
 }
